@@ -126,7 +126,60 @@ fn hostile_stmt(rng: &mut Rng, i: usize) -> Card {
     let a = any_value(rng);
     let b = any_value(rng);
     let d = any_value(rng);
-    match rng.below(13) {
+    match rng.below(16) {
+        // ordering functions over more than 20 rows with NaN (and nil, and strings) among the numbers:
+        // the language's comparison is not a total order
+        13 => {
+            let n = 21 + rng.range(0, 60);
+            let kind = rng.below(3);
+            let items: Vec<Card> = (0..n)
+                .map(|j| match (j + kind as i64) % 5 {
+                    0 => nan(),
+                    1 if kind == 1 => c(CardBody::ScalarNil),
+                    2 if kind == 2 => Card::string_card("x".repeat((j % 7) as usize)),
+                    _ => Card::scalar_int((j * 37) % 64),
+                })
+                .collect();
+            let call = match rng.below(5) {
+                0 => Card::call_function("std.sorted", vec![Card::read_var(format!("na{i}"))]),
+                1 => Card::call_function("std.min", vec![Card::read_var(format!("na{i}"))]),
+                2 => Card::call_function("std.max", vec![Card::read_var(format!("na{i}"))]),
+                3 => Card::call_function("std.sorted_by_key", vec![c(CardBody::Function("second".into())), Card::read_var(format!("na{i}"))]),
+                _ => Card::call_function("std.min_by_key", vec![c(CardBody::Function("second".into())), Card::read_var(format!("na{i}"))]),
+            };
+            Card::composite_card("unordered", vec![Card::set_var(format!("na{i}"), c(CardBody::Array(items))), Card::set_global_var(format!("h{i}"), call)])
+        }
+        // a key function that changes the table which is the row's key
+        14 => {
+            let f = ["std.min_by_key", "std.max_by_key", "std.sorted_by_key"][rng.usize(3)];
+            Card::composite_card(
+                "key-function-changes-the-key",
+                vec![
+                    Card::set_var(format!("kt{i}"), c(CardBody::CreateTable)),
+                    Card::set_var(format!("kk{i}"), c(CardBody::CreateTable)),
+                    Card::set_property(Card::scalar_int(1), Card::read_var(format!("kt{i}")), Card::read_var(format!("kk{i}"))),
+                    Card::set_property(Card::scalar_int(2), Card::read_var(format!("kt{i}")), Card::read_var("tbl")),
+                    Card::set_global_var(format!("h{i}"), Card::call_function(f, vec![c(CardBody::Function("grow_key".into())), Card::read_var(format!("kt{i}"))])),
+                ],
+            )
+        }
+        // two tables stored as distinct keys that compare equal again later, then the table grows
+        15 => {
+            let mut cards = vec![
+                Card::set_var(format!("dt{i}"), c(CardBody::CreateTable)),
+                Card::set_var(format!("da{i}"), c(CardBody::CreateTable)),
+                Card::set_var(format!("db{i}"), c(CardBody::CreateTable)),
+                Card::set_property(Card::scalar_int(1), Card::read_var(format!("dt{i}")), Card::read_var(format!("da{i}"))),
+                c(CardBody::AppendTable(bin(Card::scalar_int(5), Card::read_var(format!("da{i}"))))),
+                Card::set_property(Card::scalar_int(2), Card::read_var(format!("dt{i}")), Card::read_var(format!("db{i}"))),
+                c(CardBody::PopTable(un(Card::read_var(format!("da{i}"))))),
+            ];
+            for j in 0..(4 + rng.range(0, 30)) {
+                cards.push(Card::set_property(Card::scalar_int(j), Card::read_var(format!("dt{i}")), Card::scalar_int(100 + j)));
+            }
+            cards.push(Card::set_global_var(format!("h{i}"), c(CardBody::Len(un(Card::read_var(format!("dt{i}")))))));
+            Card::composite_card("equal-again", cards)
+        }
         // fill a table with an arithmetic progression of integer keys (clusters that wrap around the
         // end of the bucket array at one capacity or another), then take everything out again
         12 => {
@@ -225,6 +278,20 @@ pub fn gen_hostile(rng: &mut Rng) -> Module {
     m.functions.push((
         "helper".into(),
         Function::default().with_arg("x").with_card(Card::return_card(Card::read_var("x"))),
+    ));
+    m.functions.push((
+        "second".into(),
+        Function::default().with_arg("k").with_arg("v").with_card(Card::return_card(Card::read_var("v"))),
+    ));
+    m.functions.push((
+        "grow_key".into(),
+        Function::default().with_arg("k").with_arg("v").with_cards(vec![
+            c(CardBody::IfTrue(bin(
+                c(CardBody::Equals(bin(c(CardBody::Len(un(Card::read_var("k")))), Card::scalar_int(0)))),
+                c(CardBody::AppendTable(bin(Card::scalar_int(7), Card::read_var("k")))),
+            ))),
+            Card::return_card(Card::read_var("v")),
+        ]),
     ));
     // deep(n): recursion n levels, each level keeps a local string alive
     m.functions.push((
